@@ -7,7 +7,7 @@ import struct
 import core
 from core import cz, cb, clist, copt
 
-HDR = ('From Hts Require Import Base.Prim Base.DecBase Generated Model.DecText Model.DecBam Model.DecIndex Model.DecCram.\n'
+HDR = ('From Hts Require Import Base.Prim Base.DecBase Generated Model.DecText Model.DecBam Model.DecIndex Model.DecCram Model.DecBgzf.\n'
        'Open Scope Z_scope.')
 
 ACC = ('Record.End', 'Record.Bin', 'Record.Len', 'Cigar.String', 'Cigar.IsValid', 'Cigar.Lengths', 'Seq.Expand', 'Aux.Tag', 'Aux.Type', 'Aux.Kind',
@@ -194,6 +194,12 @@ def terms_for(c, o):
             return []
         vals = [go_atoi(f) for f in fields]
         return [('idx', 'IFai %s %s %d %s' % (clist(fields, bl), clist(vals, copt), cl, cb(post(o, 'Record.Position'))))]
+    if op == 'bgzf':
+        # the first member is fetched by NewReader: its outcome is the model's readMember (+ inflate, a library)
+        if c.get('m', 0) != 0 or len(x) > 3000 or o.get('goroutine'):
+            return []
+        nbs = o.get('cls') == 'err' and 'could not determine block size' in o.get('err', '')
+        return [('bgzf', 'GMember %s %d %s' % (bl(x), cl, cb(nbs)))]
     if op == 'itf8slice':
         return [('cram', 'CItf8Slice %s %d %s' % (bl(x), cl, cz(o.get('n', 0))))]
     if op == 'cram':
@@ -207,7 +213,7 @@ def terms_for(c, o):
     return []
 
 
-FAM = {'text': ('c11text', 'c11text_agree'), 'bam': ('c11bam', 'c11bam_agree'), 'idx': ('c11idx', 'c11idx_agree'), 'cram': ('c11cram', 'c11cram_agree')}
+FAM = {'bgzf': ('c11bgzf', 'c11bgzf_agree'), 'text': ('c11text', 'c11text_agree'), 'bam': ('c11bam', 'c11bam_agree'), 'idx': ('c11idx', 'c11idx_agree'), 'cram': ('c11cram', 'c11cram_agree')}
 
 
 CAP = {'quick': 100, 'thorough': 1500}
@@ -251,7 +257,7 @@ def correspond(cases, obs, labels=None, tier='quick'):
         b, e = core.coq_mismatches(HDR, FAM[fam][0], FAM[fam][1], [t for _, t in items], 'c11' + fam, shard=260, jobs=5)
         return fam, b, e
 
-    with ThreadPoolExecutor(max_workers=4) as ex:
+    with ThreadPoolExecutor(max_workers=5) as ex:
         for fam, b, e in ex.map(one, list(FAM)):
             items = by[fam]
             n += len(items)
